@@ -627,8 +627,14 @@ func (c *EvalCtx) evalCall(e *ECall) Term {
 		x := arg(0)
 		if x.T != nil {
 			if mt, ok := x.T.Underlying().(*types.Map); ok {
-				_, _, ln, _, _ := c.mapArrays(mt)
-				return mkTerm(sel(ln, x.S), sInt, types.Typ[types.Int])
+				dom, _, ln, ks, _ := c.mapArrays(mt)
+				l := sel(ln, x.S)
+				if c.facts != nil && !strings.Contains(x.S, "q!") {
+					// invariant of Go maps: the length is non-negative and zero exactly for the empty domain
+					*c.facts = append(*c.facts, "(>= "+l+" 0)",
+						"(= (= "+l+" 0) (forall ((k!l "+ks+")) (not "+sel(sel(dom, x.S), "k!l")+")))")
+				}
+				return mkTerm(l, sInt, types.Typ[types.Int])
 			}
 		}
 		if x.Sort == sString {
